@@ -1510,7 +1510,7 @@ RULE_MODELS = ("random trees from the grammar of tools/gen_cases.py (every joint
 
 PROPS = {
     "C01": {
-        "gen": gen_C01, "extra_props": ["GenLaws", "C01Cap"],
+        "gen": gen_C01, "extra_props": ["GenLaws", "C01Cap", "CapMulti"],
         "rule": RULE_MODELS + "; external forces on a random subset in half of the cases",
         "explanation": "theorems: code-shaped RNEA model = Newton-Euler specification (see RbdlProofs/Props/C01.lean); tie: InverseDynamics output vs exact model output (correspondence) and vs the first-principles jet specification (monitor)",
         "assumptions": COMMON_ASSUMPTIONS,
